@@ -42,13 +42,15 @@ type sent struct {
 }
 
 type st struct {
-	calls    []*call
-	sent     []sent
-	stream   []string // rsp seq values surfaced on RespCmdChan
-	received []int    // call numbers in the order the peer received their requests
-	x        *harness.X
-	nextSeq  int
-	kind     string
+	calls      []*call
+	sent       []sent
+	stream     []string // rsp seq values surfaced on RespCmdChan
+	received   []int    // call numbers in the order the peer received their requests
+	x          *harness.X
+	nextSeq    int
+	kind       string
+	toKind     int       // how the peer addresses its responses: no to / the client's node / its bare identity
+	clientNode lime.Node // the node the client was established as
 }
 
 func (s *st) newCall(who, id string) *call {
@@ -85,6 +87,12 @@ func rspSeq(r *lime.ResponseCommand) string {
 
 func (s *st) respond(ctx context.Context, sc *lime.ServerChannel, id string, forCall int) {
 	r := lib.Resp(id)
+	switch s.toKind {
+	case 1:
+		r.To = s.clientNode
+	case 2: // addressed to the identity, without the instance
+		r.To = lime.Node{Identity: s.clientNode.Identity}
+	}
 	r.SetMetadataKeyValue("rsp", fmt.Sprint(s.nextSeq))
 	s.sent = append(s.sent, sent{seq: s.nextSeq, id: id, forCall: forCall, afterReq: len(s.received)})
 	s.x.Obs("peer sends rsp %s#%d (for call %d)", id, s.nextSeq, forCall)
@@ -113,6 +121,11 @@ func body(kind string, third bool, planAlpha []int, nplans int) func(x *harness.
 		// data choices
 		idB := []string{"x", "y", "X"}[rt.Choose(3)] // "X": equal to A's id only under case folding
 		withCancel := rt.Choose(2) == 1
+		toKinds := 1
+		if kind == "inproc" && !third && nplans == 3 {
+			toKinds = 3 // the addressing variants are transport independent: one scenario carries them
+		}
+		s.toKind, s.clientNode = rt.Choose(toKinds), cc.LocalNode()
 		var plans []int
 		for i := 0; i < nplans; i++ {
 			plans = append(plans, planAlpha[rt.Choose(len(planAlpha))])
@@ -382,7 +395,7 @@ func main() {
 	harness.Main(harness.Check{
 		Property: "C05",
 		Level:    "model_checking",
-		Rule:     "2-3 concurrent ProcessCommand callers with ids from {x,y,X} (same-id, different-id and differ-only-by-case collisions, second round reusing an id), optional canceller of one context, a stream reader, and a peer answering each request from the plan {own id, omitted, duplicated, unknown id first, deferred until the next request} - all plan/id combinations as data choices x all schedules within the deviation bound; history checked against a pending-command-table model; distinct outcome = distinct observation log",
+		Rule:     "2-3 concurrent ProcessCommand callers with ids from {x,y,X} (same-id, different-id and differ-only-by-case collisions, second round reusing an id), optional canceller of one context, a stream reader, and a peer that addresses its responses {without to, to the client's node, to its bare identity} and answers each request from the plan {own id, omitted, duplicated, unknown id first, deferred until the next request} - all plan/id combinations as data choices x all schedules within the deviation bound; history checked against a pending-command-table model; distinct outcome = distinct observation log",
 		Assume:   []string{"channel and transport buffers of size 1 (in-process) / 64KiB pipe (TCP, WebSocket)", "delay bounding: every departure from the default schedule (continue the running goroutine; at a block, the lowest-numbered enabled goroutine) costs one deviation; no I/O stall is injected", "pruning assumes all shared state is reached through hooked operations (the pending-command map is guarded by its RWMutex)"},
 		Scenarios: []harness.Scenario{
 			mk("inproc/2callers/plans5x3", "inproc", false, full, 3, 1, 1),
